@@ -177,6 +177,28 @@ class Program:
                     (cls.attrs if cls else m.consts)[st.target.id] = st.value
 
         visit_body(m.tree.body, None, "")
+        # a base class named through a module-level alias (`_AnyQueue = queue.Queue[Any]` for type checkers, `= queue.Queue` at run
+        # time): when every module-level assignment of the name denotes the same class, the class is the base
+        aliases: dict[str, set[str]] = {}
+
+        def collect(body):
+            for st in body:
+                if isinstance(st, ast.Assign) and len(st.targets) == 1 and isinstance(st.targets[0], ast.Name):
+                    aliases.setdefault(st.targets[0].id, set()).add(base_name(st.value) if isinstance(st.value, (ast.Name, ast.Attribute, ast.Subscript)) else "?")
+                elif isinstance(st, ast.AnnAssign) and isinstance(st.target, ast.Name) and st.value is not None:
+                    aliases.setdefault(st.target.id, set()).add(base_name(st.value) if isinstance(st.value, (ast.Name, ast.Attribute, ast.Subscript)) else "?")
+                elif isinstance(st, ast.If):
+                    collect(st.body)
+                    collect(st.orelse)
+                elif isinstance(st, ast.Try):
+                    collect(st.body)
+                    collect(st.orelse)
+                    for h in st.handlers:
+                        collect(h.body)
+
+        collect(m.tree.body)
+        for ci in m.classes.values():
+            ci.bases = [next(iter(aliases[b])) if b in aliases and len(aliases[b]) == 1 and "?" not in aliases[b] and b not in m.classes else b for b in ci.bases]
 
     def _index_import(self, m: Module, st: ast.stmt) -> None:
         if isinstance(st, ast.Import):
